@@ -1,7 +1,14 @@
 package main
 
 import (
+	"encoding/json"
+	"flag"
 	"fmt"
+	"os"
+	"os/exec"
+	"path/filepath"
+	"strconv"
+	"strings"
 )
 
 // lemmaObligations: closed formulas `forall vars. hyps ==> concl` tagged with prop.
@@ -54,17 +61,225 @@ func (e *Engine) lemmaObligations(prop string) []*Obligation {
 
 type BoundedResult struct {
 	Description string   `json:"description"`
+	Label       string   `json:"label"`
+	Tests       []string `json:"tests"`
 	Cases       int      `json:"cases"`
+	Summary     []string `json:"summary_lines"`
 	Known       []string `json:"known_finding_lines"`
 	Violations  []string `json:"-"`
 	Output      string   `json:"output,omitempty"`
 }
 
-// runBounded is filled in per property (float differentials).
-func runBounded(verif, repo, prop string, seed int) *BoundedResult { return nil }
+// boundedHeader reads the `// verif:key value` lines of a bounded test file.
+func boundedHeader(path string) map[string]string {
+	h := map[string]string{}
+	b, _ := os.ReadFile(path)
+	for _, l := range strings.Split(string(b), "\n") {
+		l = strings.TrimSpace(l)
+		if strings.HasPrefix(l, "// verif:") {
+			kv := strings.SplitN(strings.TrimPrefix(l, "// verif:"), " ", 2)
+			if len(kv) == 2 {
+				h[kv[0]] = strings.TrimSpace(kv[1])
+			}
+		}
+	}
+	return h
+}
+
+// runBoundedTest injects one /verif/bounded/*_test.go into its package with -overlay and runs it on the real code.
+func runBoundedTest(repo, file string, thorough bool) (string, error) {
+	h := boundedHeader(file)
+	tmp, err := os.MkdirTemp("", "govc-bounded")
+	if err != nil {
+		return "", err
+	}
+	defer os.RemoveAll(tmp)
+	ov := map[string]map[string]string{"Replace": {filepath.Join(repo, h["pkg"], "zz_verif_bounded_test.go"): file}}
+	b, _ := json.Marshal(ov)
+	os.WriteFile(filepath.Join(tmp, "ov.json"), b, 0o644)
+	cmd := exec.Command("go", "test", "-v", "-overlay", filepath.Join(tmp, "ov.json"), "-vet=off", "-count=1", "-timeout", "600s", "-run", "^"+h["run"]+"$", "./"+h["pkg"]+"/")
+	cmd.Dir = repo
+	tier := "quick"
+	if thorough {
+		tier = "thorough"
+	}
+	cmd.Env = append(os.Environ(), "GOFLAGS=-mod=mod", "GOPROXY=off", "GOSUMDB=off", "GOTOOLCHAIN=local", "VERIF_TIER="+tier)
+	out, err := cmd.CombinedOutput()
+	return string(out), err
+}
+
+// runBounded: the bounded stand-ins of a property (float64 vs exact arithmetic), labelled bounded, never counted as proved.
+func runBounded(verif, repo, prop string, seed int) *BoundedResult {
+	files, _ := filepath.Glob(filepath.Join(verif, "bounded", "*_test.go"))
+	var res *BoundedResult
+	known := loadKnown(filepath.Join(verif, "known-findings.json"))
+	for _, f := range files {
+		h := boundedHeader(f)
+		mine := false
+		for _, p := range strings.Split(h["props"], ",") {
+			if strings.TrimSpace(p) == prop {
+				mine = true
+			}
+		}
+		if !mine {
+			continue
+		}
+		if res == nil {
+			res = &BoundedResult{Label: "bounded", Description: "real float64 code against exact rational arithmetic on a finite grid (bound stated in the test file); a stand-in for the reals-for-float64 assumption of the proof, not part of it"}
+		}
+		base := strings.TrimSuffix(filepath.Base(f), "_test.go")
+		res.Tests = append(res.Tests, f)
+		out, err := runBoundedTest(repo, f, true)
+		sawSummary := false
+		nfail := 0
+		seenKnown := map[string]bool{}
+		for _, l := range strings.Split(out, "\n") {
+			switch {
+			case strings.HasPrefix(l, "VERIF-BOUNDED-KNOWN "):
+				class := ""
+				for _, w := range strings.Fields(l) {
+					if strings.HasPrefix(w, "class=") {
+						class = strings.TrimPrefix(w, "class=")
+					}
+				}
+				name := "bounded/" + base + ":" + class
+				listed := false
+				for _, k := range known {
+					if k.Property == prop && k.Status == "known" && k.Obligation == name {
+						listed = true
+						if seenKnown[name] {
+							continue
+						}
+						seenKnown[name] = true
+						line := fmt.Sprintf("KNOWN-FINDING: property=%s %s: %s [%s]", prop, name, k.What, strings.TrimPrefix(l, "VERIF-BOUNDED-KNOWN "))
+						res.Known = append(res.Known, line)
+					}
+				}
+				if !listed {
+					nfail++
+					res.Violations = append(res.Violations, boundedViolation(verif, prop, base, nfail, f, l))
+				}
+			case strings.HasPrefix(l, "VERIF-BOUNDED-FAIL "):
+				nfail++
+				res.Violations = append(res.Violations, boundedViolation(verif, prop, base, nfail, f, l))
+			case strings.HasPrefix(l, "VERIF-BOUNDED "):
+				sawSummary = true
+				res.Summary = append(res.Summary, base+": "+strings.TrimPrefix(l, "VERIF-BOUNDED "))
+				for _, w := range strings.Fields(l) {
+					if strings.HasPrefix(w, "points=") {
+						n, _ := strconv.Atoi(strings.TrimPrefix(w, "points="))
+						res.Cases += n
+					}
+				}
+			}
+		}
+		if (err != nil || !sawSummary) && nfail == 0 {
+			// the test did not run to completion (does not compile against the changed tree, timed out, ...)
+			res.Violations = append(res.Violations, boundedViolation(verif, prop, base, 0, f, "the bounded test did not complete: "+lastLines(out, 15)))
+		}
+	}
+	return res
+}
+
+func lastLines(s string, n int) string {
+	ls := strings.Split(strings.TrimSpace(s), "\n")
+	if len(ls) > n {
+		ls = ls[len(ls)-n:]
+	}
+	return strings.Join(ls, " | ")
+}
+
+func boundedViolation(verif, prop, base string, n int, file, line string) string {
+	out := filepath.Join(verif, "replay", "out")
+	os.MkdirAll(out, 0o755)
+	path := filepath.Join(out, fmt.Sprintf("%s-bounded_%s_%d.json", prop, base, n))
+	rp := map[string]interface{}{"property": prop, "obligation": "bounded/" + base, "kind": "bounded", "bounded_test": file, "failing_input": line,
+		"how_to_replay": "govc replay -file " + path + "  (re-runs the test on the real code through go test -overlay)"}
+	b, _ := json.MarshalIndent(rp, "", " ")
+	os.WriteFile(path, b, 0o644)
+	suffix := ""
+	if n == 0 {
+		suffix = " no-failing-input-found"
+	}
+	return fmt.Sprintf("VIOLATION property=%s replay=%s%s", prop, path, suffix)
+}
 
 // tryReplay turns a counterexample into a run of the real code (per-property
 // templates); returns whether the property oracle failed on the real code.
 func tryReplay(verif, repo, prop string, o *Obligation, rp map[string]interface{}) (bool, string) {
 	return false, "no replay template for this obligation; the model is recorded above"
+}
+
+// cmdReplay re-runs what a replay file describes: a bounded test on the real code, a witness test, or the failed obligation.
+func cmdReplay(args []string) {
+	fs := flag.NewFlagSet("replay", flag.ExitOnError)
+	file := fs.String("file", "", "replay file written by a check")
+	repo := fs.String("repo", "/repo", "repository root")
+	fs.Parse(args)
+	b, err := os.ReadFile(*file)
+	if err != nil {
+		fmt.Fprintln(os.Stderr, err)
+		os.Exit(2)
+	}
+	var rp map[string]interface{}
+	if err := json.Unmarshal(b, &rp); err != nil {
+		fmt.Fprintln(os.Stderr, err)
+		os.Exit(2)
+	}
+	if t, ok := rp["bounded_test"].(string); ok {
+		out, err := runBoundedTest(*repo, t, true)
+		for _, l := range strings.Split(out, "\n") {
+			if strings.HasPrefix(l, "VERIF-BOUNDED") || strings.HasPrefix(l, "--- ") || strings.HasPrefix(l, "FAIL") || strings.HasPrefix(l, "ok") {
+				fmt.Println(l)
+			}
+		}
+		if err != nil {
+			os.Exit(1)
+		}
+		return
+	}
+	name, _ := rp["obligation"].(string)
+	prop, _ := rp["property"].(string)
+	fmt.Printf("replay: obligation %s of property %s\n", name, prop)
+	if v, ok := rp["verifier_output"]; ok {
+		fmt.Printf("recorded verifier output: %v\n", v)
+	}
+	fn := name
+	if i := strings.Index(fn, "/"); i > 0 {
+		fn = fn[:i]
+	}
+	if strings.HasPrefix(name, "generation:") {
+		fn = strings.TrimPrefix(name, "generation:")
+	}
+	e, err := Load(*repo, nil)
+	if err != nil {
+		fmt.Println("the tree does not load:", err)
+		os.Exit(2)
+	}
+	res := e.VerifyFunc(fn, prop)
+	if res.Err != "" {
+		fmt.Printf("STILL FAILS: %s cannot be brought under the generator: %s\n", fn, res.Err)
+		os.Exit(1)
+	}
+	Discharge(res.Obls, 60, 10, false)
+	found, failed := false, false
+	for _, o := range res.Obls {
+		base := o.Name
+		if base == name || strings.HasPrefix(base, name+"@") {
+			found = true
+			fmt.Printf("%s: %s (%s, %d ms) at %s\n", o.Name, o.Status, o.Backend, o.Millis, o.Pos)
+			if o.Status != "unsat" {
+				failed = true
+			}
+		}
+	}
+	if !found {
+		fmt.Println("the obligation is not generated from the current tree (it was: the clause or the code it speaks about is gone)")
+		os.Exit(1)
+	}
+	if failed {
+		fmt.Println("STILL FAILS on the current tree")
+		os.Exit(1)
+	}
+	fmt.Println("discharged on the current tree")
 }
